@@ -17,7 +17,7 @@
 From Coq Require Import Lia ZArith List.
 From Sebuf Require Import CodecCases.
 From SebufProofs Require Import TextFacts CodecTextFacts ProtoJsonFacts CodecExamples CodecFacts.
-From SebufProofs Require NullableFacts Int64Facts BytesFacts EmptyFacts TimestampFacts CodecCompose.
+From SebufProofs Require NullableFacts Int64Facts BytesFacts EmptyFacts TimestampFacts CodecCompose ClashFacts.
 Import ListNotations.
 
 Open Scope Z_scope.
@@ -192,6 +192,7 @@ Definition map_un (n : nat) (kk ek : kind) (jv : json) : res (option fval) :=
   match jv with
   | JNull => ROk None
   | JObj kv =>
+      if kind_eqb kk KBool then RErr (s "json: cannot unmarshal object into Go value of type map[bool]") else
       rall (map (fun e => key_of_text kk (fst e) >>= (fun key => gj_un E sc n ek (snd e) >>= (fun o =>
               match o with Some v => ROk (key, v) | None => RUnm (s "null map value") end))) kv)
       >>= (fun es => ROk (Some (FMap (sort_entries es))))
@@ -473,6 +474,16 @@ Lemma g_map_cons k key x r :
   gj_key_text key >>= (fun kt => gj_fval E sc k x >>= (fun j => g_map E sc k r >>= (fun t => ROk ((kt, j) :: t)))).
 Proof. reflexivity. Qed.
 
+(* json.Marshal wrote the map, so its keys are no bools: the target map is one json.Unmarshal accepts *)
+Lemma g_map_not_boolkey kk k e kv es :
+  all_wt_kv kk k (e :: kv) = true -> g_map E sc k (e :: kv) = ROk es -> kind_eqb kk KBool = false.
+Proof.
+  intros Hwe Hes. destruct e as [key y]. rewrite all_wt_kv_cons in Hwe. apply andb_prop in Hwe. destruct Hwe as [Hwk _].
+  apply andb_prop in Hwk. destruct Hwk as [Hwk _].
+  rewrite g_map_cons in Hes. apply rbind_ok in Hes. destruct Hes as [kt [Hkt _]].
+  destruct key as [z|b|y0|y0|b|z]; try discriminate Hkt; destruct kk; try discriminate Hwk; reflexivity.
+Qed.
+
 Lemma pj_rt_any v k j : wt sc k v = true -> pj_fval E sc k v = ROk j -> pj_un E sc k j = ROk v.
 Proof. exact (Q_of_PP E sc v (pj_roundtrip_fval E EL sc v) k j). Qed.
 
@@ -709,11 +720,16 @@ Definition dec_entry (n : nat) (md : message) (e : str * json) : res (option (fi
        | _ => gj_un E sc n (f_kind f) (snd e)
        end) >>= (fun o => ROk (option_map (fun v => (f, v)) o))
   end.
+(* the struct fields the keys of an object address (exact name, else case-folded) *)
+Definition key_fields (md : message) (kv : list (str * json)) : list field :=
+  flat_map (fun e => opt_list (field_by_fold md (fst e))) kv.
 Lemma gj_un_reflect n tn md kv :
   is_wkt_other tn = false -> lookup_message sc tn = Some md -> owner_of sc md = OwnNone ->
   has_real_oneof md = false ->
   gj_un E sc (S n) (KMessage tn) (JObj kv) =
-  rall (map (dec_entry n md) kv) >>= (fun ofs => ROk (Some (FM (assemble (flat_map opt_list ofs))))).
+  if clash_unm (key_fields md kv)
+  then RUnm (s "two keys of one object address the same slice, map, pointer or struct field") else
+  rall (map (dec_entry n md) kv) >>= (fun ofs => ROk (Some (FM (assemble (last_wins (flat_map opt_list ofs)))))).
 Proof. intros H1 H2 H3 H4. simpl. rewrite H1, H2, H3, H4. reflexivity. Qed.
 
 Lemma msg_ok_no_oneof md : msg_ok md = true -> forall f, In f (m_fields md) -> f_oneof f = None.
@@ -834,7 +850,7 @@ Proof.
     apply andb_prop in Hwe. destruct Hwe as [Hs Hwe]. change (all_wt_kv kk (f_kind f) (e :: kv) = true) in Hwe.
     split; [|reflexivity].
     rewrite gj_fval_FMap in Hj. apply rbind_ok in Hj. destruct Hj as [es [Hes Hj]]. inversion Hj; subst j.
-    cbn [map_un]. rewrite (refl_map_rt n kk (f_kind f) (e :: kv) HR es Hwe Hr Hes Hn'). cbn [rbind].
+    cbn [map_un]. rewrite (g_map_not_boolkey kk (f_kind f) e kv es Hwe Hes), (refl_map_rt n kk (f_kind f) (e :: kv) HR es Hwe Hr Hes Hn'). cbn [rbind].
     rewrite (sorted_key_sort _ Hs). reflexivity.
 Qed.
 
@@ -844,10 +860,11 @@ Proof. intros H. unfold field_by_fold. rewrite H. reflexivity. Qed.
 Lemma refl_fields_rt n md cm : Forall (fun e => RR (snd e)) cm -> forall es,
   wt_fields sc md cm = true -> refl_fields md cm = true -> g_msg md cm = ROk es ->
   (json_size (JObj es) <= n)%nat ->
-  exists fvs, rall (map (dec_entry n md) es) = ROk (map Some fvs) /\ Forall2 (rel md) cm fvs.
+  exists fvs, rall (map (dec_entry n md) es) = ROk (map Some fvs) /\ Forall2 (rel md) cm fvs /\
+              key_fields md es = map fst fvs.
 Proof.
   induction 1 as [|[name x] r Hx _ IH]; intros es Hw Hr Hj Hn.
-  - inversion Hj. exists []. split; [reflexivity|constructor].
+  - inversion Hj. exists []. split; [reflexivity|split; [constructor|reflexivity]].
   - cbn [wt_fields] in Hw. cbn [refl_fields] in Hr. cbn [g_msg] in Hj.
     destruct (find_field (m_fields md) name) as [f|] eqn:Ef; [|discriminate Hw].
     apply andb_prop in Hw. destruct Hw as [Hwe Hwr].
@@ -857,13 +874,14 @@ Proof.
     clear Hj. apply rbind_ok in Hj'. destruct Hj' as [j [Hjx Hj]].
     apply rbind_ok in Hj. destruct Hj as [t [Ht Hj]]. inversion Hj; subst es.
     rewrite json_size_obj_cons in Hn. pose proof (json_size_pos j). pose proof (json_size_pos (JObj t)).
-    destruct (IH t Hwr Hrr Ht) as [fvs [Hu Hrel]]; [lia|].
+    destruct (IH t Hwr Hrr Ht) as [fvs [Hu [Hrel Hkf]]]; [lia|].
     cbn [snd] in Hx.
     destruct (refl_entry_rt n f x j Hx Hwe Hrx Hjx) as [Hdec Hpop]; [lia|].
-    exists ((f, x) :: fvs). split.
+    exists ((f, x) :: fvs). split; [|split].
     + cbn [map rall]. unfold dec_entry at 1. cbn [fst snd]. rewrite (field_by_fold_exact md name f Ef), Hdec.
       cbn [rbind option_map]. rewrite Hu. reflexivity.
     + constructor; [|exact Hrel]. unfold rel. cbn [fst snd]. auto.
+    + unfold key_fields in *. cbn [flat_map map fst]. rewrite (field_by_fold_exact md name f Ef), Hkf. reflexivity.
 Qed.
 
 Lemma flat_map_opt_some {A} (l : list A) : flat_map opt_list (map Some l) = l.
@@ -881,8 +899,14 @@ Proof.
   rewrite (gj_fval_reflect tn md cm Hwk Hlk Hown), (msg_ok_oneof_unset md cm Hok) in Hj.
   apply rbind_ok in Hj. destruct Hj as [es [Hes Hj]]. inversion Hj; subst j.
   rewrite (gj_un_reflect n tn md es Hwk Hlk Hown (msg_ok_has_no_oneof md Hok)).
-  destruct (refl_fields_rt n md cm HP es Hwf Hrf Hes Hn) as [fvs [Hu Hrel]].
-  rewrite Hu. cbn [rbind]. rewrite flat_map_opt_some.
+  destruct (refl_fields_rt n md cm HP es Hwf Hrf Hes Hn) as [fvs [Hu [Hrel Hkf]]].
+  (* the keys are the proto names of the populated fields: pairwise distinct, no field is addressed twice *)
+  assert (Hnames : NoDup (map (fun e : field * fval => f_name (fst e)) fvs)).
+  { assert (Heq : map (fun e : field * fval => f_name (fst e)) fvs = map fst cm).
+    { rewrite <- (rel_names md cm fvs Hrel) at 1. rewrite map_map. reflexivity. }
+    rewrite Heq. exact (Int64Facts.sorted_names_nodup md cm Hsorted). }
+  rewrite Hkf, (ClashFacts.clash_unm_nodup (map fst fvs)) by (rewrite map_map; exact Hnames).
+  rewrite Hu. cbn [rbind]. rewrite flat_map_opt_some, (ClashFacts.last_wins_nodup fvs Hnames).
   rewrite assemble_canon.
   - rewrite (rel_names md cm fvs Hrel). reflexivity.
   - rewrite (rel_nums md cm fvs Hrel). exact Hsorted.
@@ -1090,7 +1114,7 @@ Proof.
       rewrite (Hkid Hng), gj_fval_FMap in Henc.
       destruct (g_map E sc (f_kind f) (e :: kv)) as [es|e0|w] eqn:Ees; try discriminate Henc.
       cbn [rbind] in Henc. inversion Henc; subst p. cbn [map snd hd_error] in Hraw. rewrite Hraw.
-      cbn [map_un].
+      cbn [map_un]. rewrite (g_map_not_boolkey kk (f_kind f) e kv es Hwe Ees).
       destruct (is_msg_kind (f_kind f)) eqn:Hmk.
       * (* message values without an unwrap field: reflection over the struct *)
         assert (Hr : reflectable (f_kind f) (FMap (e :: kv)) = true).
@@ -1484,8 +1508,10 @@ Definition ums : schema :=
            msg "Deep" [fld "leaf" 1 (T "Leaf") Singular; fld "big_nums" 2 KInt64 Repeated; fld "by_k" 3 KInt32 (MapOf KString);
                        fld "c" 4 Color Singular; fld "more" 5 (T "OptB") Repeated; fld "at" 6 TS Singular] [];
            msg "Nick" [set_nullable (fld "nick" 1 KString Optional); fld "id" 2 KString Singular] [];
+           msg "DupLeaf" [fld "d" 1 Dup Singular] [];
            msg "RefBoard" [fld "by_sym" 1 (T "BarList") (MapOf KString); fld "opts" 2 (T "OptB") (MapOf KString);
-                           fld "deep" 3 (T "Deep") (MapOf KInt32); fld "nicks" 4 (T "Nick") (MapOf KString)] [] ];
+                           fld "deep" 3 (T "Deep") (MapOf KInt32); fld "nicks" 4 (T "Nick") (MapOf KString);
+                           fld "dups" 5 (T "DupLeaf") (MapOf KString)] [] ];
        fl_enums := [color_enum; dup_enum]; fl_services := [] |} ].
 
 (* library instance: 1.5 as a double and as a float *)
@@ -1624,15 +1650,23 @@ Example unwrap_map_roundtrip_needs_unambiguous_enum_json :
 Proof. split; umbut. Qed.
 
 (* reflected_maps_plain: a sibling map whose values are messages without an unwrap field goes through
-   encoding/json's reflection; `json:"b,omitempty"` drops a present-but-empty optional bytes field, so its
-   presence is lost.  No defect class fires. *)
+   encoding/json's reflection.
+   (1) `json:"b,omitempty"` drops a present-but-empty optional bytes field, so its presence is lost
+       (since confirmed on the emitted code and tagged: defect class D4ReflectedEmptyOptBytes);
+   (2) an enum field of such a value whose type has two values with one custom text: DUP_B is written "same" and read
+       back as DUP_A; gj_enums_rt looks at the message's own fields and the wrapper items only, no defect class fires. *)
 Example unwrap_map_roundtrip_needs_reflected_maps_plain :
   um_case_but Eu ums (q "RefBoard")
     [(s "opts", FMap [(VStr (s "k"), FM [(s "b", FS (VBytes [])); (s "t", vstr "x")])])]
-    true false []
+    true false [D4ReflectedEmptyOptBytes]
     (JObj [(s "opts", JObj [(s "k", JObj [(s "t", JStr (s "x"))])])])
-    (ROk [(s "opts", FMap [(VStr (s "k"), FM [(s "t", vstr "x")])])]).
-Proof. umbut. Qed.
+    (ROk [(s "opts", FMap [(VStr (s "k"), FM [(s "t", vstr "x")])])]) /\
+  um_case_but Eu ums (q "RefBoard")
+    [(s "dups", FMap [(VStr (s "k"), FM [(s "d", FS (VEnum 2))])])]
+    true false []
+    (JObj [(s "dups", JObj [(s "k", JObj [(s "d", JStr (s "same"))])])])
+    (ROk [(s "dups", FMap [(VStr (s "k"), FM [(s "d", FS (VEnum 1))])])]).
+Proof. split; umbut. Qed.
 
 (* defects_C04 = []: -0.0 in a singular sibling is dropped by `x.F != 0` *)
 Example unwrap_map_roundtrip_needs_no_defects :
